@@ -724,7 +724,15 @@ fn print_sheet(rng: &mut Rng, rules: &[Rule], style: usize) -> String {
             o.push_str(&ws(rng));
         }
         o.push_str(&ws(rng));
-        o.push_str(&r.sels.join(if style == 0 { "," } else { ", " }));
+        if style == 0 {
+            o.push_str(&r.sels.join(","));
+        } else {
+            // white space on either side of the comma, and around the sign inside :nth-child()
+            let sep = *rng.pick(&[", ", ",", " , ", " ,\n", "/**/,/**/"]);
+            let nth = *rng.pick(&["2n+1", "2n + 1", "2n+ 1", "2n +1"]);
+            let sels: Vec<String> = r.sels.iter().map(|x| x.replace("2n+1", nth)).collect();
+            o.push_str(&sels.join(sep));
+        }
         o.push_str(&ws(rng));
         o.push('{');
         for (k, (p, v, imp)) in r.decls.iter().enumerate() {
